@@ -158,6 +158,63 @@ func evalMarkers(cs *gen.Case) (failed bool, msg string, ran bool, err error) {
 			probs = append(probs, fmt.Sprintf("the %s of %s (property %q) is emitted in %s, its id is mapped to %s", w.where, w.file, w.key, strings.Join(places, " "), w.output))
 		}
 	}
+	// (b) a root that refers to itself keeps doing so wherever and whenever it is generated
+	for _, w := range want {
+		if w.where != "root" || len(found[w.key][w.output]) != 1 {
+			continue
+		}
+		typeName := found[w.key][w.output][0]
+		p, err := parseOut(res.Sources[w.output])
+		if err != nil {
+			continue
+		}
+		ast.Inspect(p.file, func(n ast.Node) bool {
+			ts, ok := n.(*ast.TypeSpec)
+			if !ok || ts.Name.Name != typeName {
+				return true
+			}
+			st, ok := ts.Type.(*ast.StructType)
+			if !ok {
+				return false
+			}
+			for _, fl := range st.Fields.List {
+				if fl.Tag == nil {
+					continue
+				}
+				raw, _ := strconv.Unquote(fl.Tag.Value)
+				name := strings.Split(reflect.StructTag(raw).Get("json"), ",")[0]
+				if name != "zkids" && name != "znext" {
+					continue
+				}
+				if te := p.print(fl.Type); !strings.Contains(te, typeName) {
+					probs = append(probs, fmt.Sprintf("the root of %s refers to itself through %q, the emitted field has type %s instead of a type built on %s", w.file, name, te, typeName))
+				}
+			}
+			return false
+		})
+	}
+	// (c) nothing is emitted for a mapping whose id no loaded schema carries
+	loaded := map[string]bool{}
+	outOfLoaded := map[string]bool{cs.Config.DefaultOutput: true}
+	for _, f := range cs.Files {
+		if v, err := jv.Parse([]byte(f.Text)); err == nil {
+			if x, ok := v.Get("$id"); ok {
+				loaded[x.S] = true
+			}
+		}
+	}
+	for _, m := range cs.Config.Mappings {
+		if loaded[m.ID] {
+			outOfLoaded[m.Output] = true
+		}
+	}
+	for _, m := range cs.Config.Mappings {
+		if !loaded[m.ID] && m.Output != "" && !outOfLoaded[m.Output] {
+			if _, ok := res.Sources[m.Output]; ok {
+				probs = append(probs, fmt.Sprintf("output %s is emitted for the mapping of id %s, which no schema of the run carries", m.Output, m.ID))
+			}
+		}
+	}
 	sort.Strings(probs)
 	return len(probs) > 0, strings.Join(probs, "\n"), true, nil
 }
@@ -208,6 +265,13 @@ func markerCase(t *rapid.T, c *core.Ctx) *gen.Case {
 				props = append(props, o)
 			}
 		}
+		// a recursive shape: the root refers to itself (directly or as array items)
+		switch rapid.IntRange(0, 3).Draw(t, "selfref") {
+		case 0:
+			props = append(props, `"zkids":{"type":"array","items":{"$ref":"#"}}`)
+		case 1:
+			props = append(props, `"znext":{"$ref":"#"}`)
+		}
 		var sb strings.Builder
 		fmt.Fprintf(&sb, `{"$id":%q,`, id)
 		if titles {
@@ -238,6 +302,12 @@ func markerCase(t *rapid.T, c *core.Ctx) *gen.Case {
 			}
 			cfg.Mappings = append(cfg.Mappings, gen.Mapping{ID: id, Package: pkg, Output: fmt.Sprintf("out/%s/m%d.go", pkg[strings.LastIndex(pkg, "/")+1:], i)})
 		}
+	}
+	if rapid.IntRange(0, 2).Draw(t, "absentmapping") == 0 {
+		// a mapping for an id that no schema of the run carries (a shared flag set): nothing is
+		// to be emitted for it
+		cfg.Mappings = append(cfg.Mappings, gen.Mapping{ID: "https://example.com/absent", Package: "example.com/gen/absentpkg", Output: "out/absentpkg/absent.go"})
+		c.Count("markers.mapping_for_absent_id")
 	}
 	cs.Inputs = rapid.Permutation(cs.Inputs).Draw(t, "argorder")
 	cs.Config = cfg
